@@ -105,7 +105,8 @@ let trace_with step init kind (w : string list) : string list =
 let model_tokens w = trace_with exec_prog init_world (fun mn sv -> match stream_kind mn sv with KSmart -> "1" | KNull -> "0") w
 let spec_tokens w = trace_with spec_prog init_sworld (fun mn sv -> if gate_open mn sv then "1" else "0") w
 
-let line_of_tokens = function [] -> "-" | l -> String.concat " " l
-let tokens_of_line (s : string) = if s = "-" then [] else words s
+(* observation line: "-" when nothing happened, else "ev" followed by the event tokens *)
+let line_of_tokens = function [] -> "-" | l -> String.concat " " ("ev" :: l)
+let tokens_of_line (s : string) = match words s with ["-"] -> [] | "ev" :: l -> l | l -> "?" :: l
 
 let model (w : string list) : string = try line_of_tokens (model_tokens w) with Bad | Failure _ | Invalid_argument _ -> "BADCASE"
